@@ -16,6 +16,10 @@
 // @h c17_has_impl_map tier=both
 // @h c17_has_impl_set tier=thorough
 // @h c17_has_impl_native tier=both
+// @h c17_has_impl_array_32 tier=off bounded=length-32-and-33
+// @h c17_has_impl_array_33 tier=both bounded=length-32-and-33
+// @h c17_has_impl_tuple_12 tier=off bounded=arity-12-and-13
+// @h c17_has_impl_tuple_13 tier=both bounded=arity-12-and-13
 // @h c17_has_impl_struct_default tier=both
 // @h c17_has_impl_enum_000 tier=both
 // @h c17_has_impl_enum_001 tier=both
@@ -45,6 +49,15 @@
 //       UntaggedDisplay -- the markers are the other of the two cooperating sites (emission in
 //       output_enum keys on exactly these); every subset of the three markers, one harness each
 //
+//   P5  a fixed-length array claims Default only up to length 32, a tuple only up to 12
+//       members (std implements Default for [T; N], N <= 32, and tuples up to arity 12), and
+//       only if the item type has Default; neither claims FromStr / Display. Length is
+//       concrete around the limit (arrays 32, 33; tuples 12, 13);
+//       the item type is a one-entry id_to_entry (bool). Only the lengths OVER the limit (33,
+//       13) are decided: at or under it has_impl looks the item entry up and recurses, and
+//       reading a TypeEntry back out of the B-tree makes CBMC unwind the whole recursive
+//       match (no result in 600 s, 14 GB) -- harnesses array_32 / tuple_12 kept with tier=off.
+//
 // The kind is concrete per harness (a symbolic selector chooses between constructor
 // calls), the trait is symbolic.
 
@@ -62,8 +75,11 @@ fn any_impl() -> TypeSpaceImpl {
 
 macro_rules! stubs {
     ($(#[$m:meta])* fn $name:ident() $body:block) => {
+        stubs! { @unwind 24, $(#[$m])* fn $name() $body }
+    };
+    (@unwind $n:expr, $(#[$m:meta])* fn $name:ident() $body:block) => {
         #[kani::proof]
-        #[kani::unwind(24)]
+        #[kani::unwind($n)]
         #[kani::stub(crate::MapType::new, crate::verif_common::stub_map_type_new)]
         #[kani::stub(crate::util::sanitize, crate::verif_common::stub_sanitize)]
         $(#[$m])*
@@ -140,6 +156,70 @@ stubs! {
         kani::cover!(has, "[must] a registered impl is claimed");
         core::mem::forget(entry);
         core::mem::forget(ts);
+    }
+}
+
+fn check_array(length: usize) {
+    let mut ts = empty_type_space();
+    ts.id_to_entry.insert(TypeId(3), TypeEntryDetails::Boolean.into());
+    let entry: TypeEntry = TypeEntryDetails::Array(TypeId(3), length).into();
+    let x = any_impl();
+    let has = entry.has_impl(&ts, x.clone());
+    if has {
+        kani::assert(
+            matches!(x, TypeSpaceImpl::Default) && length <= 32,
+            "[C17/P5] a fixed-length array claims an impl that [T; N] does not have (Default needs N <= 32)",
+        );
+    }
+    kani::cover!(has || length > 32, "[must] an array of Default items claims Default");
+    core::mem::forget(entry);
+    core::mem::forget(ts);
+}
+
+stubs! {
+    fn c17_has_impl_array_32() {
+        check_array(32)
+    }
+}
+
+stubs! {
+    fn c17_has_impl_array_33() {
+        check_array(33)
+    }
+}
+
+fn check_tuple(n: usize) {
+    let mut ts = empty_type_space();
+    ts.id_to_entry.insert(TypeId(3), TypeEntryDetails::Boolean.into());
+    let mut ids = Vec::new();
+    let mut i = 0;
+    while i < n {
+        ids.push(TypeId(3));
+        i += 1;
+    }
+    let entry: TypeEntry = TypeEntryDetails::Tuple(ids).into();
+    let x = any_impl();
+    let has = entry.has_impl(&ts, x.clone());
+    if has {
+        kani::assert(
+            matches!(x, TypeSpaceImpl::Default) && n <= 12,
+            "[C17/P5] a tuple claims an impl that tuples do not have (Default needs arity <= 12)",
+        );
+    }
+    kani::cover!(has || n > 12, "[must] a 12-tuple of Default members claims Default");
+    core::mem::forget(entry);
+    core::mem::forget(ts);
+}
+
+stubs! {
+    fn c17_has_impl_tuple_12() {
+        check_tuple(12)
+    }
+}
+
+stubs! {
+    fn c17_has_impl_tuple_13() {
+        check_tuple(13)
     }
 }
 
